@@ -1059,6 +1059,104 @@ fn run_scenario(kit: &Kit, sc: &Scenario, work: &str, exe: &Path, gen_path: &str
 	(out, tot)
 }
 
+
+// ---------------------------------------------------------------------------------------------
+// `crash startup`: Chain::init -> setup_head on start-up states that are NOT left by a crash:
+// an empty directory (genesis is installed), a database with a head but no txhashset directory, a
+// PIBD head marker above the body head (init skips rewinding and validation). Each is started,
+// described, stopped and started again; the first two also with a death at every crash point of that
+// first start (child armed before Chain::init).
+// ---------------------------------------------------------------------------------------------
+fn startup_mode(out: &mut Out, work: &str, exe: &Path) {
+	let mut kit = Kit::new(&format!("{}/builder", work));
+	let mut tip = 0usize;
+	let mut trunk = vec![0usize];
+	for _ in 0..9 {
+		if let Ok(id) = kit.new_block(tip, 2, &[]) {
+			tip = id;
+			trunk.push(id);
+		}
+	}
+	std::fs::create_dir_all(format!("{}/blocks", work)).unwrap();
+	let gen_path = format!("{}/blocks/genesis.bin", work);
+	write_block(&gen_path, &kit.genesis);
+	out.raw("crash reset");
+	let describe = |dir: &str, kit: &Kit| -> String {
+		let g = kit.genesis.clone();
+		let d = dir.to_string();
+		match catch(move || init_chain(&d, g)) {
+			Err(_) => "open=panic".to_string(),
+			Ok(Err(e)) => format!("open=err:{}", error_class(&e)),
+			Ok(Ok(c)) => {
+				let s = snap(&c, kit);
+				let v = match catch(std::panic::AssertUnwindSafe(|| c.validate(false))) {
+					Ok(Ok(_)) => "ok".to_string(),
+					Ok(Err(e)) => format!("err:{}", error_class(&e)),
+					Err(_) => "panic".to_string(),
+				};
+				format!("open=ok head={} hhead={} validate={}", s.head, s.hhead, v)
+			}
+		}
+	};
+	let build = |dir: &str, kit: &Kit, trunk: &Vec<usize>| {
+		let c = init_chain(dir, kit.genesis.clone()).unwrap();
+		for i in &trunk[1..] {
+			c.process_block(kit.blks[*i].block.clone(), grin_chain::Options::SKIP_POW).unwrap();
+		}
+	};
+	// ---- empty directory ----
+	{
+		let dir = format!("{}/st-empty", work);
+		std::fs::create_dir_all(&dir).unwrap();
+		verif_hooks::start_log();
+		let first = describe(&dir, &kit);
+		let labels = qualify(verif_hooks::take_log());
+		let again = describe(&dir, &kit);
+		out.line("crash startup empty", &format!("{} ;; again {}", first, again));
+		for m in 1..=labels.len() {
+			let d = format!("{}/st-empty-{}", work, m);
+			std::fs::create_dir_all(&d).unwrap();
+			let code = Command::new(exe).args(["reopen", &d, &gen_path, &m.to_string()]).status().unwrap().code().unwrap_or(-1);
+			let r = describe(&d, &kit);
+			out.line(&format!("crash startup empty-killed {} {}", m, labels[m - 1]), &format!("exit={} {}", code, r));
+			if !r.starts_with("open=ok head=b0 hhead=b0 validate=ok") {
+				out.raw(&format!("#ORACLE-FAIL C09 startup: first start on an empty directory killed at {}/{} {} :: {}", m, labels.len(), labels[m - 1], r));
+			}
+			let _ = std::fs::remove_dir_all(&d);
+		}
+		out.raw(&format!("#STAT startup empty: crash points of the first start={}", labels.len()));
+	}
+	// ---- head in the database, txhashset directory missing ----
+	{
+		let dir = format!("{}/st-notx", work);
+		build(&dir, &kit, &trunk);
+		let _ = std::fs::remove_dir_all(format!("{}/txhashset", dir));
+		let first = describe(&dir, &kit);
+		let again = describe(&dir, &kit);
+		out.line(&format!("crash startup no-txhashset b{}", tip), &format!("{} ;; again {}", first, again));
+	}
+	// ---- PIBD head marker above the body head ----
+	{
+		let dir = format!("{}/st-pibd", work);
+		build(&dir, &kit, &trunk);
+		{
+			// body head reset three blocks back (headers stay), PIBD head = header head
+			let c = init_chain(&dir, kit.genesis.clone()).unwrap();
+			let t = grin_chain::Tip::from_header(&kit.blks[trunk[trunk.len() - 4]].block.header);
+			let _ = c.reset_chain_head(t, false);
+			let store = c.store();
+			let b = store.batch().unwrap();
+			let mut b = b;
+			b.save_pibd_head(&grin_chain::Tip::from_header(&kit.blks[tip].block.header)).unwrap();
+			b.commit().unwrap();
+		}
+		let first = describe(&dir, &kit);
+		let again = describe(&dir, &kit);
+		out.line(&format!("crash startup pibd-marker b{} b{}", trunk[trunk.len() - 4], tip), &format!("{} ;; again {}", first, again));
+	}
+	out.flush();
+}
+
 fn main() {
 	quiet_panics();
 	let args: Vec<String> = std::env::args().collect();
@@ -1081,6 +1179,10 @@ fn main() {
 	let mut out = Out::stdout();
 	if args.iter().any(|a| a == "aof") {
 		aof::run(&mut out, &work, seed, thorough);
+		return;
+	}
+	if args.iter().any(|a| a == "startup") {
+		startup_mode(&mut out, &work, &exe);
 		return;
 	}
 
